@@ -148,6 +148,7 @@ type Fam struct {
 	index    *TxIndex
 	blockTxs []string // hashes of the txs delivered in the current block (indexed at Commit)
 	minChanged, windowChanged bool
+	win                       map[string]*winHist // C08: votes per address since its window was last empty
 	mea      int64
 	// monitor bookkeeping
 	feesThisBlock map[string]sdk.Int
@@ -258,6 +259,7 @@ func (f *Fam) doInit(w []string) string {
 	f.dead, f.height, f.inBlock = false, 0, false
 	f.committed = nil
 	f.minChanged, f.windowChanged = false, false
+	f.win = nil
 	f.tm, f.tmHist, f.pending = map[string]int64{}, nil, nil
 	f.delivered = map[string]bool{}
 	f.donated = sdk.ZeroInt()
